@@ -84,6 +84,11 @@ structure Cfg where
   steps : Nat := 1
   hands : Nat := 0
   canOpen : Bool := true
+  /-- the socket name: derived from how the path of the DAG file is SPELLED (md5 of the absolute,
+      not symlink-resolved location), whereas the lock is taken on the file itself (its inode = `dag`).
+      The same file reached through a symlinked directory, a symlink or a hard link has the same `dag`
+      and another `sock`. -/
+  sock : Nat := dag
 deriving DecidableEq, Repr
 
 structure Agent where
@@ -92,6 +97,7 @@ structure Agent where
   steps : Nat          -- steps still to execute
   hands : Nat          -- handlers still to execute
   canOpen : Bool
+  sock : Nat           -- socket name (key into the socket name space); the lock is keyed by `dag`
   pc : Pc
   execs : Nat := 0     -- ghost: step commands started
   hexecs : Nat := 0    -- ghost: handler commands started
@@ -103,13 +109,13 @@ deriving DecidableEq, Repr
 
 structure World where
   agents : Nat → Agent
-  ns : Nat → Sock            -- DAG id ↦ state of its socket path
-  lk : Nat → Option Nat      -- DAG id ↦ holder of the exclusive lock on the DAG file
+  ns : Nat → Sock            -- socket name ↦ state of that path
+  lk : Nat → Option Nat      -- DAG file (inode) ↦ holder of the exclusive lock on it
 
-def idle : Agent := { dag := 0, dry := false, steps := 0, hands := 0, canOpen := true, pc := .done }
+def idle : Agent := { dag := 0, dry := false, steps := 0, hands := 0, canOpen := true, sock := 0, pc := .done }
 
 def fresh (c : Cfg) : Agent :=
-  { dag := c.dag, dry := c.dry, steps := c.steps, hands := c.hands, canOpen := c.canOpen, pc := .setup }
+  { dag := c.dag, dry := c.dry, steps := c.steps, hands := c.hands, canOpen := c.canOpen, sock := c.sock, pc := .setup }
 
 def init (cfgs : List Cfg) : World :=
   { agents := fun a => match cfgs[a]? with | some c => fresh c | none => idle
@@ -158,7 +164,7 @@ def stepAg (w : World) (a : Nat) (ag : Agent) (act : Act) : Option World :=
         | some _ => some (setAgent w a { ag with pc := .refused })       -- flock: EWOULDBLOCK
       else some (setAgent w a { ag with pc := .probe })                  -- os.Open failed: no lock at all
   | .probe, .probe =>
-      match w.ns ag.dag with
+      match w.ns ag.sock with
       | .bound _ true => some (release (setAgent w a { ag with pc := .refused }) ag.dag a)
       | _ => some (setAgent w a { ag with pc := .removeOld })
   | .removeOld, .histRemoveOld => some (setAgent w a { ag with pc := .histOpen, hist := ag.hist + 1 })
@@ -166,17 +172,17 @@ def stepAg (w : World) (a : Nat) (ag : Agent) (act : Act) : Option World :=
   | .firstWrite, .histWrite =>
       some (setAgent w a { ag with pc := .unlink, hist := ag.hist + 1, recs := ag.recs + 1 })
   | .unlink, .unlink =>
-      some (setNs (setAgent w a { ag with pc := .bind, unlinks := ag.unlinks + 1 }) ag.dag .absent)
+      some (setNs (setAgent w a { ag with pc := .bind, unlinks := ag.unlinks + 1 }) ag.sock .absent)
   | .bind, .bind =>
-      match w.ns ag.dag with
+      match w.ns ag.sock with
       | .absent =>
-          some (setNs (setAgent w a { ag with pc := .listen, binds := ag.binds + 1 }) ag.dag (.bound a false))
+          some (setNs (setAgent w a { ag with pc := .listen, binds := ag.binds + 1 }) ag.sock (.bound a false))
       | _ => some (setAgent w a { ag with pc := .failUnlock, binds := ag.binds + 1 })
   | .listen, .listen =>
       -- listen(2) acts on the descriptor: it succeeds even if the file was unlinked meanwhile
-      match w.ns ag.dag with
+      match w.ns ag.sock with
       | .bound b false =>
-          if b = a then some (setNs (setAgent w a { ag with pc := afterListen ag }) ag.dag (.bound a true))
+          if b = a then some (setNs (setAgent w a { ag with pc := afterListen ag }) ag.sock (.bound a true))
           else some (setAgent w a { ag with pc := afterListen ag })
       | _ => some (setAgent w a { ag with pc := afterListen ag })
   | .steps, .execStep => some (setAgent w a { didStep ag with pc := afterListen (didStep ag) })
@@ -187,15 +193,15 @@ def stepAg (w : World) (a : Nat) (ag : Agent) (act : Act) : Option World :=
   | .unlock, .unlock => some (release (setAgent w a { ag with pc := .shutClose }) ag.dag a)
   | .shutClose, .shutClose =>
       -- UnixListener.Close unlinks the path it was bound to — whichever file is there now
-      some (setNs (setAgent w a { ag with pc := .histClose, unlinks := ag.unlinks + 1 }) ag.dag .absent)
+      some (setNs (setAgent w a { ag with pc := .histClose, unlinks := ag.unlinks + 1 }) ag.sock .absent)
   | .histClose, .histClose => some (setAgent w a { ag with pc := .done, hist := ag.hist + 1 })
   | .failUnlock, .unlock => some (release (setAgent w a { ag with pc := .failClose }) ag.dag a)
   | .failClose, .histClose => some (setAgent w a { ag with pc := .bindFailed, hist := ag.hist + 1 })
   | pc, .kill =>
       if alive pc then
-        match w.ns ag.dag with
+        match w.ns ag.sock with
         | .bound b _ =>
-            if b = a then some (release (setNs (setAgent w a { ag with pc := .dead }) ag.dag .stale) ag.dag a)
+            if b = a then some (release (setNs (setAgent w a { ag with pc := .dead }) ag.sock .stale) ag.dag a)
             else some (release (setAgent w a { ag with pc := .dead }) ag.dag a)
         | _ => some (release (setAgent w a { ag with pc := .dead }) ag.dag a)
       else none
